@@ -2,7 +2,7 @@
 
 use crate::engine::{catch, fail, fail_known, replay_as, Classifier, Ctx, Verdict};
 use crate::gen::json::J;
-use crate::gen::num::{spell, u256_boundary, Spelling, ALL_SPELLINGS};
+use crate::gen::num::{spell, u256_boundary, ALL_SPELLINGS};
 use crate::gen::txgen::{self, Shape, SHAPES};
 use crate::gen::U;
 use crate::refimpl::tx::{c_max, Kind, TxModel};
